@@ -33,7 +33,13 @@ Qed.
 
 Lemma eq_comm_ok_inv c : eq_comm_ok c = true -> c = [] \/ ident_ok c = true.
 Proof.
-  unfold eq_comm_ok. destruct c as [|x c]; [left; reflexivity|]. cbn [is_nil orb]. intro H. right. exact H.
+  unfold eq_comm_ok. destruct c as [|x c]; [left; reflexivity|]. cbn [is_nil orb]. intro H. right.
+  apply comm_ok_inv in H as [H _]. exact H.
+Qed.
+Lemma eq_comm_ok_sem c : eq_comm_ok c = true -> comm_sem_ok c = true.
+Proof.
+  unfold eq_comm_ok. destruct c as [|x c]; [reflexivity|]. cbn [is_nil orb]. intro H.
+  apply comm_ok_inv in H as [_ H]. exact H.
 Qed.
 
 (* ------------------------------------------------------------------ stage 1: the posting line *)
@@ -74,7 +80,11 @@ Proof.
   { unfold after. apply (span_app is_sp [32; 32]%N); [reflexivity|]. rewrite Ed. cbn [stopb].
     rewrite (dec_char_not_sp _ Hd0). reflexivity. }
   rewrite Espan. rewrite Ed. rewrite (dec_char_not_semi _ Hd0). cbn [is_nil]. rewrite <- Ed.
-  unfold tail. rewrite (take_value_eq _ _ Hfits Hcomm). cbn [span snd take_comment].
+  unfold tail. rewrite (take_value_eq _ _ Hfits Hcomm).
+  assert (Hu : unit_sem_ok (match ep_comm p with [] => None | x :: c' => Some (mkUnit (x :: c') None None) end) = true).
+  { pose proof (eq_comm_ok_sem _ Hcomm) as Hs. destruct (ep_comm p) as [|x c']; [reflexivity|].
+    cbn [unit_sem_ok u_comm u_closing]. rewrite Hs. reflexivity. }
+  rewrite Hu. cbn [negb span snd take_comment].
   unfold eq_raw_post. reflexivity.
 Qed.
 
@@ -378,6 +388,21 @@ Proof.
     + apply stopb_rev_app; assumption.
   - rewrite app_nil_r. destruct (e_comm e) as [|x c] eqn:Ec; [reflexivity|].
     apply stopb_rev_app; [discriminate|]. apply stopb_rev_app; [discriminate|exact Hp].
+Qed.
+
+Lemma eq_comm_ok_plain e : eq_comm_ok (e_comm e) = true -> eq_desc_plain e = true.
+Proof.
+  intro H. pose proof (eq_comm_ok_sem _ H) as Hs. unfold eq_desc_plain.
+  destruct (e_comm e) as [|x c] eqn:E; [reflexivity|].
+  assert (Ht : trim_end (x :: c) = x :: c).
+  { apply trim_end_fix_iff. apply not_ws_stop; [discriminate|exact Hs]. }
+  rewrite Ht. apply str_eqb_same.
+Qed.
+
+(* for a well-formed exported transaction the description is read back exactly *)
+Lemma eq_desc_trim_wf e : eq_txn_wf e = true -> trim_end (eq_desc e) = eq_desc e.
+Proof.
+  intro H. destruct (eq_txn_wf_inv e H) as (_ & Hc & Hu & _). apply eq_desc_trim; [apply eq_comm_ok_plain, Hc|exact Hu].
 Qed.
 
 (* ------------------------------------------------------------------ stage 4: loading the text *)
